@@ -130,7 +130,7 @@ def judge_values(kind, m, msg, opts):
         return None
     d = diff_message(m, msg.subsets)
     if d:
-        return 'decoded %s differ from FM-94 reading at subset %s field %s: observed %r expected %r' % (d[1], d[0], d[2], jsonable(d[3]), jsonable(d[4]))
+        return ('decoded-%s-differ' % str(d[1]).split(':')[0], 'decoded %s differ from FM-94 reading at subset %s field %s: observed %r expected %r' % (d[1], d[0], d[2], jsonable(d[3]), jsonable(d[4])))
     return None
 
 
